@@ -32,6 +32,7 @@ inductive RowV where
   | mbs (r : MbSide)
   | msg (r : Message)
   | app (a : String)            -- a row of `SELECT DISTINCT app_id FROM …`
+  | name (n : String)           -- a row of `SELECT DISTINCT name FROM nameplates …`
   deriving Repr, DecidableEq
 
 /-- the dict: column name -> value -/
@@ -42,6 +43,7 @@ def RowV.toRow : RowV → Row
   | .mbs r => r.toRow
   | .msg r => r.toRow
   | .app a => [("app_id", .text a)]
+  | .name n => [("name", .text n)]
 
 inductive SV where
   | none
@@ -93,6 +95,10 @@ inductive XE where
   | listenerCount
   /-- `self.get_app(e)`: the namespace of that app (the registry of namespaces is Reg.lean's) -/
   | appObj (e : XE)
+  /-- `[]` returned as an (empty) collection of names -/
+  | emptyStrs
+  /-- `set([row["col"] for row in rows])` -/
+  | colSet (e : XE) (col : String)
   /-- `SidedMessage(side=…, phase=…, body=…, server_rx=…, msg_id=…)` -/
   | mkMsg (side phase body rx id : XE)
   | floordiv (a b : XE)
@@ -225,6 +231,12 @@ def ofSummV : PySum.SV → SV
 
 def rowField (r : RowV) (col : String) : SV := SV.ofCell (r.toRow.get col)
 
+/-- `row[col]` when it is a string -/
+def strOfField (col : String) (r : RowV) : Option String :=
+  match rowField r col with
+  | .str a => some a
+  | _ => Option.none
+
 def eval (ctx : Ctx) (s : Sys) (env : Env) : XE → SV
   | .none_ => .none
   | .true_ => .bool true
@@ -235,6 +247,7 @@ def eval (ctx : Ctx) (s : Sys) (env : Env) : XE → SV
   | .selfAttr a =>
     if a = "_app_id" then .str ctx.app else if a = "_mailbox_id" then .str ctx.mailbox
     else if a = "_usage_db" then .bool s.cfg.usage
+    else if a = "_allow_list" then .bool s.cfg.allowList
     else if a = "_blur_usage" then (match s.blurTicks with | some B => .int B | Option.none => .none)   -- in ticks, like the times
     -- `Server._blur_usage` as `dump_stats` STORES it (seconds, no arithmetic with times)
     else if a = "_blur_usage_raw" then (match s.cfg.blur with | some b => .int b | Option.none => .none)
@@ -249,6 +262,10 @@ def eval (ctx : Ctx) (s : Sys) (env : Env) : XE → SV
     | _ => .none)
   | .listenerCount => .int ((s.conns.filter (·.listening)).length : Nat)
   | .appObj e => (match eval ctx s env e with | .str a => .appRef a | _ => .none)
+  | .emptyStrs => .strs []
+  | .colSet e col => (match eval ctx s env e with
+    | .rows l => .strs (l.filterMap (strOfField col))
+    | _ => .none)
   | .mkMsg side phase body rx id =>
     (match eval ctx s env side, svVal (eval ctx s env phase), svVal (eval ctx s env body), eval ctx s env rx,
         svVal (eval ctx s env id) with
@@ -314,6 +331,12 @@ def getMessagesStmt (s : Sys) (args : List SV) : ExecRes :=
 def allAppsStmt (s : Sys) (col : List String) (args : List SV) : ExecRes :=
   match args with
   | [] => .ok s (.rows (col.eraseDups.map .app))
+  | _ => .raised s "TypeError"
+
+/-- `SELECT DISTINCT name FROM nameplates WHERE app_id=?` -/
+def namesStmt (s : Sys) (args : List SV) : ExecRes :=
+  match args with
+  | [.str app] => .ok s (.rows ((s.db.namesOfApp app).map .name))
   | _ => .raised s "TypeError"
 
 /-- `DELETE FROM current` -/
@@ -451,6 +474,7 @@ def stmtSem (s : Sys) (stmt : String) (args : List SV) : ExecRes :=
   else if stmt = "Server_get_all_apps__select_nameplates_0" then allAppsStmt s (s.db.nameplates.map (·.app)) args
   else if stmt = "Server_get_all_apps__select_mailboxes_0" then allAppsStmt s (s.db.mailboxes.map (·.app)) args
   else if stmt = "Server_get_all_apps__select_messages_0" then allAppsStmt s (s.db.messages.map (·.app)) args
+  else if stmt = "AppNamespace__get_nameplate_ids__select_nameplates_0" then namesStmt s args
   else if stmt = "Server_dump_stats__delete_current_0" then dumpDeleteStmt s args
   else if stmt = "Server_dump_stats__insert_current_0" then dumpInsertStmt s args
   else .raised s "NotInTable"
